@@ -20,6 +20,7 @@ import (
 	delegationtypes "github.com/ExocoreNetwork/exocore/x/delegation/types"
 	operatortypes "github.com/ExocoreNetwork/exocore/x/operator/types"
 	sdk "github.com/cosmos/cosmos-sdk/types"
+	slashingtypes "github.com/cosmos/cosmos-sdk/x/slashing/types"
 	stakingtypes "github.com/cosmos/cosmos-sdk/x/staking/types"
 	"github.com/ethereum/go-ethereum/common"
 )
@@ -486,6 +487,10 @@ func (m *Machine) Apply(a *Action) (Outcome, error) {
 	case "setKey":
 		msg := &operatortypes.SetConsKeyReq{Address: m.W.Operators[a.Op].Bech32(), AvsAddress: m.W.AvsAddr, PublicKeyJSON: m.Keys[a.Key].Wrapped.ToJSON()}
 		return m.cosmosAs(a, m.W.Operators[a.Op], msg)
+	case "msgUnjail":
+		// the operator asks x/slashing to lift its jail (real MsgUnjail through DeliverTx)
+		op := m.W.Operators[a.Op]
+		return m.cosmosAs(a, op, &slashingtypes.MsgUnjail{ValidatorAddr: sdk.ValAddress(op.Acc()).String()})
 	case "regOperator":
 		who := m.Ident(a.Ident)
 		info := &operatortypes.OperatorInfo{EarningsAddr: who.Bech32(), ApproveAddr: who.Bech32(), OperatorMetaInfo: "probe", Commission: stakingtypes.NewCommission(sdk.ZeroDec(), sdk.OneDec(), sdk.OneDec())}
